@@ -18,7 +18,8 @@ Notation den := (den nt).
 Ltac one lem := eapply steps_step; [eapply lem; eauto|].
 Ltac uncons H A := let H' := fresh "Hat" in destruct (code_at_cons _ _ _ _ H) as [A H']; clear H; rename H' into H.
 Ltac impl_intro :=
-  intros sc cur base Hcur ce pc nv sn cq nv' sn' Hc Hat rho v st fk vs n n0 o ko g K P HE Hn Hko Hoo Hlen HK1 HK2 c [S1 S2] HP.
+  intros sc cur base Hfr ce pc nv sn cq nv' sn' Hc Hat rho v st fk vs n n0 o ko g K P HE Hn Hko Hoo Hlen HK1 HK2 c [S1 S2] HP;
+  pose proof (proj1 Hfr) as Hcur.
 Ltac cl := first [apply cle_refl | unfold cle; simpl; lia].
 
 Lemma Tend_weaken : forall c fin (P P' : list sv -> nat -> gx -> Prop) s,
@@ -189,14 +190,14 @@ Proof.
 Qed.
 
 (* an Impl used as inner generator *)
-Lemma impl_inner : forall q, Impl q -> forall sc cur base, (forall k, index_of sc (cur, k) = Some (base + k)) ->
+Lemma impl_inner : forall q, Impl q -> forall sc cur base, frameOK sc cur base ->
   forall ce pc nv sn cq nv' sn', comp q ce cur pc nv sn = Some (cq, nv', sn') -> code_at pc cq ->
   forall rho v st fk vs n n0 o g, envOK sc ce rho vs n0 (base + nv) -> n0 <= n -> base + nv' <= o -> o <= length vs ->
   let c1 := ctx_of sc (pc + length cq) st fk (base + nv) (base + nv') o o (fun i => base + nv <= i < base + nv' \/ kept sc ce i) ce n0 (ctr g) in
   G c1 (fst (den q rho v)) (Tend c1 (snd (den q rho v)) (fun _ _ _ => True)) (N sc pc (SV v :: st) fk vs n o g).
 Proof.
-  intros q IH sc cur base Hcur ce pc nv sn cq nv' sn' Ec Hat rho v st fk vs n n0 o g HE Hn Ho Hl c1.
-  apply (IH sc cur base Hcur ce pc nv sn cq nv' sn' Ec Hat rho v st fk vs n n0 o o g _ (fun _ _ _ => True)); auto.
+  intros q IH sc cur base Hfr ce pc nv sn cq nv' sn' Ec Hat rho v st fk vs n n0 o g HE Hn Ho Hl c1. pose proof (proj1 Hfr) as Hcur.
+  apply (IH sc cur base Hfr ce pc nv sn cq nv' sn' Ec Hat rho v st fk vs n n0 o o g _ (fun _ _ _ => True)); auto.
   split; auto.
 Qed.
 
@@ -235,7 +236,7 @@ Proof.
 Qed.
 
 (* an Impl used as (part of) a body, in an arbitrary context whose own set contains its range *)
-Lemma impl_body : forall q, Impl q -> forall sc cur base, (forall k, index_of sc (cur, k) = Some (base + k)) ->
+Lemma impl_body : forall q, Impl q -> forall sc cur base, frameOK sc cur base ->
   forall ceq pcq nvq sn cq nvq' sn', comp q ceq cur pcq nvq sn = Some (cq, nvq', sn') -> code_at pcq cq ->
   forall cx rhoq v vs n o g (P : list sv -> nat -> gx -> Prop),
     g_sc cx = sc -> g_pc cx = pcq + length cq -> ce_lbls (g_ce cx) = ce_lbls ceq -> g_off cx = o ->
@@ -248,8 +249,8 @@ Lemma impl_body : forall q, Impl q -> forall sc cur base, (forall k, index_of sc
     P vs n g ->
     G cx (fst (den q rhoq v)) (Tend cx (snd (den q rhoq v)) P) (N sc pcq (SV v :: g_st cx) (g_base cx) vs n o g).
 Proof.
-  intros q IH sc cur base Hcur ceq pcq nvq sn cq nvq' sn' Ec Hat cx rhoq v vs n o g P Hsc Hpc Hlb Hoff Hown Hk1 Hk2 HE Hn Hko Hoo Hl Hct HP1 HP2 HP.
-  pose proof (IH sc cur base Hcur ceq pcq nvq sn cq nvq' sn' Ec Hat rhoq v (g_st cx) (g_base cx) vs n (g_n0 cx) o (g_koff cx) g
+  intros q IH sc cur base Hfr ceq pcq nvq sn cq nvq' sn' Ec Hat cx rhoq v vs n o g P Hsc Hpc Hlb Hoff Hown Hk1 Hk2 HE Hn Hko Hoo Hl Hct HP1 HP2 HP. pose proof (proj1 Hfr) as Hcur.
+  pose proof (IH sc cur base Hfr ceq pcq nvq sn cq nvq' sn' Ec Hat rhoq v (g_st cx) (g_base cx) vs n (g_n0 cx) o (g_koff cx) g
                 (g_keep cx) P HE Hn Hko Hoo Hl Hk1 Hk2) as H.
   cbv zeta in H.
   refine (G_sub nt code (ctx_of sc (pcq + length cq) (g_st cx) (g_base cx) (base + nvq) (base + nvq') o (g_koff cx) (g_keep cx) ceq (g_n0 cx) (ctr g))
@@ -302,7 +303,7 @@ Proof.
   destruct (comp_mono _ _ _ _ _ _ _ _ _ Ec) as [M1 _]. destruct (comp_mono _ _ _ _ _ _ _ _ _ Ec0) as [M2 _].
   std_facts. pose proof (conj S1 S2) as HS. destruct (stable_sub _ _ _ _ _ _ _ _ _ _ _ _ _ HS) as [S1' S2'].
   subst c. rewrite app_length, Nat.add_assoc in *.
-  pose proof (impl_inner a IHa sc cur base Hcur ce pc nv sn ca n1 s1 Ec Hata rho v st fk vs n n0 o g HE Hn ltac:(lia) Hlen) as HA.
+  pose proof (impl_inner a IHa sc cur base Hfr ce pc nv sn ca n1 s1 Ec Hata rho v st fk vs n n0 o g HE Hn ltac:(lia) Hlen) as HA.
   cbv zeta in HA. cbn [Den.den].
   eapply G_impl; [|refine (bind_std (den b rho) (fun _ => True) sc (pc + length ca) st (base + nv) (base + n1) (pc + length ca + length cb) st fk
             (base + nv) (base + n2) o ko K ce n0 (ctr g) rho (base + nv) P (fun i => base + n1 <= i < base + n2) ce
@@ -311,7 +312,7 @@ Proof.
   - intros i Hi. lia.
   - auto.
   - intros w fk' vs' n' o' x [(E' & Hn' & Hl' & Hp') _] Ho' Ht' Hfk.
-    apply (impl_body b IHb sc cur base Hcur ce (pc + length ca) n1 s1 cb n2 s2 Ec0 Hatb
+    apply (impl_body b IHb sc cur base Hfr ce (pc + length ca) n1 s1 cb n2 s2 Ec0 Hatb
              (cbody (ctx_of sc (pc + length ca + length cb) st fk (base + nv) (base + n2) o ko K ce n0 (ctr g))
                     (fun i => base + n1 <= i < base + n2) ce fk' o' (ctr x)) rho w vs' n' o' x
              (fun a0 m x0 => Jstd sc ce rho n0 (base + nv) o P a0 m x0 /\ True)); simpl; auto; try lia.
@@ -364,7 +365,7 @@ Proof.
   assert (HA : G (ctx_of sc (S pc + length ca) st (fx :: fk) (base + nv) (base + n1) o ko K ce n0 (ctr g)) (fst (den a rho v))
                  (Tend (ctx_of sc (S pc + length ca) st (fx :: fk) (base + nv) (base + n1) o ko K ce n0 (ctr g)) (snd (den a rho v)) Pa)
                  (N sc (S pc) (SV v :: st) (fx :: fk) vs n o g)).
-  { apply (IHa sc cur base Hcur ce (S pc) nv sn ca n1 s1 Ec Hata rho v st (fx :: fk) vs n n0 o ko g K Pa); auto; try lia.
+  { apply (IHa sc cur base Hfr ce (S pc) nv sn ca n1 s1 Ec Hata rho v st (fx :: fk) vs n n0 o ko g K Pa); auto; try lia.
     - intros; apply HK1; lia.
     - eapply Jstd_stable; eauto; lia.
     - split; auto. }
@@ -392,7 +393,7 @@ Proof.
     + intros z1 HQz (e & vs4 & n4 & g4 & St4 & Ch4 & Le4 & HE4 & (E4 & Hn4 & Hl4 & HP4)). simpl in St4, Ch4, HE4. subst e.
       eapply G_pre; [eapply steps_trans; [exact St4|one st_popfork; one bt_fork_none; constructor]
                     |eapply chg_mono; [|exact Ch4]; simpl; intros; lia|exact Le4|].
-      pose proof (IHb sc cur base Hcur ce L n1 s1 cb n2 s2 Ec0 Hatb rho v st fk vs4 n4 n0 o ko g4 K P) as HB. cbv zeta in HB.
+      pose proof (IHb sc cur base Hfr ce L n1 s1 cb n2 s2 Ec0 Hatb rho v st fk vs4 n4 n0 o ko g4 K P) as HB. cbv zeta in HB.
       refine (G_sub nt code (ctx_of sc (L + length cb) st fk (base + n1) (base + n2) o ko K ce n0 (ctr g4)) c _ _
                 eq_refl eq_refl eq_refl eq_refl _ _ _ (le_n _) (le_n _) _ _ _ _ (HB _ _ _ _ _ _ _ _ _)); auto; try lia.
       * simpl; intros; lia.
@@ -464,7 +465,7 @@ Lemma postfix_std : forall t (f : jv -> result) (i : instr), Impl t ->
   (forall cx pcI o (P : list sv -> nat -> gx -> Prop) w vs n g, at_ pcI i -> g_pc cx = S pcI -> g_off cx <= o ->
      (forall a b m x m' x', P a m x -> keepK cx a b -> cle m x m' x' -> P b m' x') -> P vs n g -> o <= length vs -> g_ctr cx <= ctr g ->
      G cx (fst (f w)) (Tend cx (snd (f w)) P) (N (g_sc cx) pcI (SV w :: g_st cx) (g_base cx) vs n o g)) ->
-  forall sc cur base, (forall k, index_of sc (cur, k) = Some (base + k)) ->
+  forall sc cur base, frameOK sc cur base ->
   forall ce pc nv sn ct nv' sn', comp t ce cur pc nv sn = Some (ct, nv', sn') -> code_at pc (ct ++ [i]) ->
   forall rho v st fk vs n n0 o ko g (K : nat -> Prop) (P : list sv -> nat -> gx -> Prop),
     envOK sc ce rho vs n0 (base + nv) -> n0 <= n -> base + nv' <= ko -> ko <= o -> o <= length vs ->
@@ -473,11 +474,11 @@ Lemma postfix_std : forall t (f : jv -> result) (i : instr), Impl t ->
     stable c P -> P vs n g ->
     G c (fst (bind (den t rho v) f)) (Tend c (snd (bind (den t rho v) f)) P) (N sc pc (SV v :: st) fk vs n o g).
 Proof.
-  intros t f i IHt Hbody sc cur base Hcur ce pc nv sn ct nv' sn' Ec Hat rho v st fk vs n n0 o ko g K P HE Hn Hko Hoo Hlen HK1 HK2 c HS HP.
+  intros t f i IHt Hbody sc cur base Hfr ce pc nv sn ct nv' sn' Ec Hat rho v st fk vs n n0 o ko g K P HE Hn Hko Hoo Hlen HK1 HK2 c HS HP. pose proof (proj1 Hfr) as Hcur.
   destruct (code_at_app _ _ _ _ Hat) as [Hatt Hati]. uncons Hati Ai.
   destruct (comp_mono _ _ _ _ _ _ _ _ _ Ec) as [M1 _].
   std_facts. destruct (stable_sub _ _ _ _ _ _ _ _ _ _ _ _ _ HS) as [S1' S2'].
-  pose proof (impl_inner t IHt sc cur base Hcur ce pc nv sn ct nv' sn' Ec Hatt rho v st fk vs n n0 o g HE Hn ltac:(lia) Hlen) as HA.
+  pose proof (impl_inner t IHt sc cur base Hfr ce pc nv sn ct nv' sn' Ec Hatt rho v st fk vs n n0 o g HE Hn ltac:(lia) Hlen) as HA.
   cbv zeta in HA.
   assert (Epc : pc + length (ct ++ [i]) = S (pc + length ct)) by (rewrite app_length; simpl; lia).
   subst c. rewrite Epc in *.
@@ -511,7 +512,7 @@ Proof.
 Qed.
 
 (* an Impl run as a body of a composition, with the standard invariant Jstd /\ Jg *)
-Lemma std_body : forall q, Impl q -> forall sc cur base, (forall k, index_of sc (cur, k) = Some (base + k)) ->
+Lemma std_body : forall q, Impl q -> forall sc cur base, frameOK sc cur base ->
   forall ceq pcq nvq sn cq nvq' sn', comp q ceq cur pcq nvq sn = Some (cq, nvq', sn') -> code_at pcq cq ->
   forall pc' st fk lo hi o ko K ce n0 t (ownb0 : nat -> Prop) ceb fk' o' x rhoq rho lim
          (P : list sv -> nat -> gx -> Prop) (Jg : list sv -> Prop) v' vs' n',
@@ -528,10 +529,10 @@ Lemma std_body : forall q, Impl q -> forall sc cur base, (forall k, index_of sc 
     G cb (fst (den q rhoq v')) (Tend cb (snd (den q rhoq v')) (fun a m y => Jstd sc ce rho n0 lim o P a m y /\ Jg a))
       (N sc pcq (SV v' :: st) (fk' ++ fk) vs' n' o' x).
 Proof.
-  intros q IH sc cur base Hcur ceq pcq nvq sn cq nvq' sn' Ec Hat pc' st fk lo hi o ko K ce n0 t ownb0 ceb fk' o' x rhoq rho lim P Jg v' vs' n'
-         Hpc Hlb Hown HKq HK2 HEq Hko Hoo Hlo Hhi Hlim Hlimo S1' S2' Jg1 Jg2 Hj Hg Ho' Ht cb.
+  intros q IH sc cur base Hfr ceq pcq nvq sn cq nvq' sn' Ec Hat pc' st fk lo hi o ko K ce n0 t ownb0 ceb fk' o' x rhoq rho lim P Jg v' vs' n'
+         Hpc Hlb Hown HKq HK2 HEq Hko Hoo Hlo Hhi Hlim Hlimo S1' S2' Jg1 Jg2 Hj Hg Ho' Ht cb. pose proof (proj1 Hfr) as Hcur.
   pose proof Hj as (E' & Hn' & Hl' & Hp').
-  apply (impl_body q IH sc cur base Hcur ceq pcq nvq sn cq nvq' sn' Ec Hat cb rhoq v' vs' n' o' x
+  apply (impl_body q IH sc cur base Hfr ceq pcq nvq sn cq nvq' sn' Ec Hat cb rhoq v' vs' n' o' x
            (fun a m y => Jstd sc ce rho n0 lim o P a m y /\ Jg a)); subst cb; simpl; auto; try lia.
   - intros i [Hi|Hi]; [left; apply Hown; auto|right; auto].
   - intros i Hi. apply Hown; auto.
@@ -549,7 +550,7 @@ Definition if_pre (cc : list instr) : list instr :=
   match cc with [] => [Idup] | _ => Idup :: Iexpbegin :: cc ++ [Iexpend] end.
 
 (* the condition of an if: dup (or nop, when the results are constants), expbegin, c, expend *)
-Lemma if_cond : forall c, Impl c -> forall sc cur base, (forall k, index_of sc (cur, k) = Some (base + k)) ->
+Lemma if_cond : forall c, Impl c -> forall sc cur base, frameOK sc cur base ->
   forall ce pc nv sn cc n1 s1, comp c ce cur (pc + 2) nv sn = Some (cc, n1, s1) ->
   forall (i0 : instr), code_at pc (i0 :: tl (if_pre cc)) ->
   forall rho v st0 st1 fk vs n n0 o g,
@@ -558,7 +559,7 @@ Lemma if_cond : forall c, Impl c -> forall sc cur base, (forall k, index_of sc (
   let c1 := ctx_of sc (pc + length (if_pre cc)) st1 fk (base + nv) (base + n1) o o (fun i => base + nv <= i < base + n1 \/ kept sc ce i) ce n0 (ctr g) in
   G c1 (fst (den c rho v)) (Tend c1 (snd (den c rho v)) (fun _ _ _ => True)) (N sc pc (SV v :: st0) fk vs n o g).
 Proof.
-  intros c IHc sc cur base Hcur ce pc nv sn cc n1 s1 Ec i0 Hat rho v st0 st1 fk vs n n0 o g Hstep HE Hn Ho Hl c1.
+  intros c IHc sc cur base Hfr ce pc nv sn cc n1 s1 Ec i0 Hat rho v st0 st1 fk vs n n0 o g Hstep HE Hn Ho Hl c1. pose proof (proj1 Hfr) as Hcur.
   destruct cc as [|i cc'].
   - destruct (comp_nil _ _ _ _ _ _ _ _ Ec) as (E1 & -> & ->). rewrite (emptycode_den nt _ E1). cbn [fst snd].
     subst c1. simpl length. replace (pc + 1) with (S pc) by lia.
@@ -570,7 +571,7 @@ Proof.
     replace (S (S pc)) with (pc + 2) in * by lia.
     eapply G_pre; [eapply steps_step; [apply Hstep|one st_expbegin; apply steps_refl]|apply chg_refl|cl|].
     replace (S (S pc)) with (pc + 2) by lia.
-    pose proof (impl_inner c IHc sc cur base Hcur ce (pc + 2) nv sn cc n1 s1 Ec Hatc rho v st1 fk vs n n0 o g HE Hn Ho Hl) as HA. cbv zeta in HA.
+    pose proof (impl_inner c IHc sc cur base Hfr ce (pc + 2) nv sn cc n1 s1 Ec Hatc rho v st1 fk vs n n0 o g HE Hn Ho Hl) as HA. cbv zeta in HA.
     subst c1. replace (pc + length (Idup :: Iexpbegin :: cc ++ [Iexpend])) with (S (pc + 2 + length cc)).
     2:{ simpl. rewrite app_length. simpl. lia. }
     eapply G_exit; [|exact HA]. intros w f vs' n' o' g'. one st_expend. apply steps_refl.
@@ -622,7 +623,7 @@ Proof.
     { rewrite app_length, Nat.add_assoc, Elen. unfold e. simpl. lia. }
     assert (Ee : e = S (S (S pcc))) by (unfold e; simpl; lia).
     subst c. rewrite Epc in *.
-    pose proof (if_cond qc IHc sc cur base Hcur ce pc nv sn cc n1 s1 Ec Inop Hpre rho v st st fk vs n n0 o g) as HA. cbv zeta in HA.
+    pose proof (if_cond qc IHc sc cur base Hfr ce pc nv sn cc n1 s1 Ec Inop Hpre rho v st st fk vs n n0 o g) as HA. cbv zeta in HA.
     assert (A0 : at_ pc Inop) by (destruct (code_at_cons _ _ _ _ Hpre); auto).
     specialize (HA (fun f vs n o g => st_nop nt code sc pc _ f vs n o g A0) HE Hn ltac:(lia) Hlen). fold pcc in HA.
     rewrite (comp_const1 nt _ _ _ _ _ _ _ _ _ Ea), (comp_const1 nt _ _ _ _ _ _ _ _ _ Eb).
@@ -653,7 +654,7 @@ Proof.
     { rewrite app_length. simpl. rewrite app_length. simpl. unfold e, pcc. lia. }
     subst c. rewrite Epc in *.
     rewrite (if_pre_cons cc) in Hpre.
-    pose proof (if_cond qc IHc sc cur base Hcur ce pc nv sn cc n1 s1 Ec Idup Hpre rho v st (SV v :: st) fk vs n n0 o g) as HA. cbv zeta in HA.
+    pose proof (if_cond qc IHc sc cur base Hfr ce pc nv sn cc n1 s1 Ec Idup Hpre rho v st (SV v :: st) fk vs n n0 o g) as HA. cbv zeta in HA.
     assert (A0 : at_ pc Idup) by (destruct (code_at_cons _ _ _ _ Hpre); auto).
     specialize (HA (fun f vs n o g => st_dup nt code sc pc _ _ f vs n o g A0) HE Hn ltac:(lia) Hlen). fold pcc in HA.
     eapply G_impl; [|refine (bind_std (fun w => if truthy w then den qa rho v else den qb rho v) (fun _ => True)
@@ -667,7 +668,7 @@ Proof.
       eapply G_pre; [one st_jumpifnot; apply steps_refl|apply chg_refl|cl|].
       destruct (truthy w).
       * (* then-branch, followed by the jump over the else-branch *)
-        pose proof (std_body qa IHa sc cur base Hcur ce (S pcc) n1 s1 ca n2 s2 Ea Hata (S pcc + length ca) st fk (base + nv) (base + nv') o ko K ce n0 (ctr g)
+        pose proof (std_body qa IHa sc cur base Hfr ce (S pcc) n1 s1 ca n2 s2 Ea Hata (S pcc + length ca) st fk (base + nv) (base + nv') o ko K ce n0 (ctr g)
                       (fun i => base + n1 <= i < base + nv') ce fk' o' z rho rho (base + nv) P (fun _ => True) v vs' n' eq_refl eq_refl) as HB.
         cbv zeta in HB.
         eapply G_impl; [|eapply (G_exit nt code sc (S pcc + length ca) (e + length cb)); [|apply HB; auto; try lia]].
@@ -675,7 +676,7 @@ Proof.
         -- intros w' f vs2 n2' o2 g2. one st_jump. apply steps_refl.
         -- intros i Hi. split; [lia|apply HK1; lia].
         -- eapply envOK_lim; eauto. lia.
-      * pose proof (std_body qb IHb sc cur base Hcur ce e n2 s2 cb nv' sn' Eb Hatb (e + length cb) st fk (base + nv) (base + nv') o ko K ce n0 (ctr g)
+      * pose proof (std_body qb IHb sc cur base Hfr ce e n2 s2 cb nv' sn' Eb Hatb (e + length cb) st fk (base + nv) (base + nv') o ko K ce n0 (ctr g)
                       (fun i => base + n1 <= i < base + nv') ce fk' o' z rho rho (base + nv) P (fun _ => True) v vs' n' eq_refl eq_refl) as HB.
         cbv zeta in HB. apply HB; auto; try lia.
         -- intros i Hi. split; [lia|apply HK1; lia].
@@ -712,7 +713,7 @@ Proof.
 Qed.
 
 (* the body of a binding construct: the value w was stored in the fresh slot k of the current frame *)
-Lemma bound_body : forall q, Impl q -> forall sc cur base, (forall k, index_of sc (cur, k) = Some (base + k)) ->
+Lemma bound_body : forall q, Impl q -> forall sc cur base, frameOK sc cur base ->
   forall ce x k pcq sn cq nvq' sn', comp q (add_var ce x (cur, k)) cur pcq (S k) sn = Some (cq, nvq', sn') -> code_at pcq cq ->
   forall pc' st fk lo hi o ko K n0 t (ownb0 : nat -> Prop) fk' o' z rho lim
          (P : list sv -> nat -> gx -> Prop) w u vs' n',
@@ -726,11 +727,11 @@ Lemma bound_body : forall q, Impl q -> forall sc cur base, (forall k, index_of s
     G cb (fst (den q ((x, w) :: rho) u)) (Tend cb (snd (den q ((x, w) :: rho) u)) (fun a m y => Jstd sc ce rho n0 lim o P a m y /\ True))
       (N sc pcq (SV u :: st) (fk' ++ fk) vs' n' o' z).
 Proof.
-  intros q IH sc cur base Hcur ce x k pcq sn cq nvq' sn' Ec Hat pc' st fk lo hi o ko K n0 t ownb0 fk' o' z rho lim P w u vs' n'
-         Hpc Hown HK2 Hko Hoo Hlo Hhi Hlim Hlimo S1' S2' Hj Hnth Ho' Ht cb.
+  intros q IH sc cur base Hfr ce x k pcq sn cq nvq' sn' Ec Hat pc' st fk lo hi o ko K n0 t ownb0 fk' o' z rho lim P w u vs' n'
+         Hpc Hown HK2 Hko Hoo Hlo Hhi Hlim Hlimo S1' S2' Hj Hnth Ho' Ht cb. pose proof (proj1 Hfr) as Hcur.
   destruct (comp_mono _ _ _ _ _ _ _ _ _ Ec) as [M _]. pose proof Hj as (E & Hn & Hl & Hp).
   subst cb.
-  apply (std_body q IH sc cur base Hcur (add_var ce x (cur, k)) pcq (S k) sn cq nvq' sn' Ec Hat pc' st fk lo hi o ko K ce n0 t ownb0 ce fk' o' z
+  apply (std_body q IH sc cur base Hfr (add_var ce x (cur, k)) pcq (S k) sn cq nvq' sn' Ec Hat pc' st fk lo hi o ko K ce n0 t ownb0 ce fk' o' z
            ((x, w) :: rho) rho lim P (fun _ => True) u vs' n' Hpc eq_refl); auto; try lia.
   - intros i Hi. apply Hown. lia.
   - intros i Hi. destruct (kept_add_var _ _ _ _ _ _ (Hcur k) Hi) as [->|Hi']; [apply Hown; lia|auto].
@@ -765,7 +766,7 @@ Proof.
       destruct (update_spec _ _ _ _ U) as (UL & UN & UO).
       eapply G_pre; [one st_store; apply steps_refl|eapply chg_update; [exact U|simpl; lia]|cl|].
       replace (S (S (S pc))) with pcb by (unfold pcb; lia).
-      apply (bound_body qb IHb sc cur base Hcur ce x nv pcb sn cb nv' sn' Eb Hatb (pcb + length cb) st fk (base + nv) (base + nv') o ko K n0 (ctr g)
+      apply (bound_body qb IHb sc cur base Hfr ce x nv pcb sn cb nv' sn' Eb Hatb (pcb + length cb) st fk (base + nv) (base + nv') o ko K n0 (ctr g)
                (fun i => base + nv <= i < base + nv') fk' o' z rho (base + nv) P w v vs'' n'); auto; try lia.
       all: try (intros i Hi; split; [lia|apply HK1; lia]).
       all: try (eapply Jstd_update; eauto; lia).
@@ -779,7 +780,7 @@ Proof.
     replace (S (S pc)) with (pc + 2) in * by lia.
     assert (Epcb : pcb = S (S (pc + 2 + length cs))).
     { unfold pcb. rewrite Epre. simpl. rewrite app_length. simpl. lia. }
-    pose proof (impl_inner qs IHs sc cur base Hcur ce (pc + 2) nv sn cs n1 s1 Es Hats rho v (SV v :: st) fk vs n n0 o g HE Hn ltac:(lia) Hlen) as HA.
+    pose proof (impl_inner qs IHs sc cur base Hfr ce (pc + 2) nv sn cs n1 s1 Es Hats rho v (SV v :: st) fk vs n n0 o g HE Hn ltac:(lia) Hlen) as HA.
     cbv zeta in HA.
     eapply G_impl; [|refine (bind_std (fun w => den qb ((x, w) :: rho) v) (fun _ => True) sc (pc + 2 + length cs) (SV v :: st) (base + nv) (base + n1)
               (pcb + length cb) st fk (base + nv) (base + nv') o ko K ce n0 (ctr g) rho (base + nv) P
@@ -793,7 +794,7 @@ Proof.
       destruct (update_spec _ _ _ _ U) as (UL & UN & UO).
       eapply G_pre; [one st_store; one st_expend; apply steps_refl|eapply chg_update; [exact U|simpl; lia]|cl|].
       rewrite <- Epcb.
-      apply (bound_body qb IHb sc cur base Hcur ce x n1 pcb s1 cb nv' sn' Eb Hatb (pcb + length cb) st fk (base + nv) (base + nv') o ko K n0 (ctr g)
+      apply (bound_body qb IHb sc cur base Hfr ce x n1 pcb s1 cb nv' sn' Eb Hatb (pcb + length cb) st fk (base + nv) (base + nv') o ko K n0 (ctr g)
                (fun i => base + n1 <= i < base + nv') fk' o' z rho (base + nv) P w v vs'' n'); auto; try lia.
       all: try (intros i Hi; split; [lia|apply HK1; lia]).
       all: try (eapply Jstd_update; eauto; lia).
@@ -823,7 +824,7 @@ Proof.
   set (Pb := fun a m (x : gx) => Jstd sc ce rho n0 (base + nv) o P a m x /\ nth_error a (base + nv) = Some (SLbl n)).
   assert (HJ1 : Jstd sc ce rho n0 (base + nv) o P vs1 n g) by (eapply Jstd_update; eauto; lia).
   assert (HB : G cx (fst (den qb rho v)) (Tend cx (snd (den qb rho v)) Pb) (N sc (S pc) (SV v :: st) (fx :: fk) vs1 (S n) o g)).
-  { apply (impl_body qb IHb sc cur base Hcur ceb (S pc) (S nv) sn cb nv' s1 Ec Hat cx rho v vs1 (S n) o g Pb); simpl; auto; try lia.
+  { apply (impl_body qb IHb sc cur base Hfr ceb (S pc) (S nv) sn cb nv' s1 Ec Hat cx rho v vs1 (S n) o g Pb); simpl; auto; try lia.
     - intros; apply HK1; lia.
     - intros i Hi. destruct (kept_add_lbl _ _ _ _ _ _ (Hcur nv) Hi) as [->|Hi']; [apply HK1; lia|auto].
     - destruct HJ1 as (E1 & _). apply envOK_add_lbl with (a := base + nv) (id := n); auto; try lia.
@@ -927,7 +928,7 @@ Proof.
   set (Pa := Jstd sc ce rho n0 (base + nv) o P).
   set (ca0 := ctx_of sc (S pc + length ca) st (fb :: fk) (base + nv) (base + n1) o ko K ce n0 (ctr g)).
   assert (HA : G ca0 (fst (den qa rho v)) (Tend ca0 (snd (den qa rho v)) Pa) (N sc (S pc) (SV v :: st) (fb :: fk) vs n o g)).
-  { apply (IHa sc cur base Hcur ce (S pc) nv sn ca n1 s1 Ea Hata rho v st (fb :: fk) vs n n0 o ko g K Pa); auto; try lia.
+  { apply (IHa sc cur base Hfr ce (S pc) nv sn ca n1 s1 Ea Hata rho v st (fb :: fk) vs n n0 o ko g K Pa); auto; try lia.
     - intros; apply HK1; lia.
     - eapply Jstd_stable; eauto; lia.
     - split; auto. }
@@ -951,7 +952,7 @@ Proof.
     destruct (snd (den qa rho v)) as [[e0|l']|]; simpl in HE4.
     - subst e. destruct h as [h'|].
       + eapply G_pre; [eapply steps_trans; [exact St4|one st_popfork; one bt_trybegin_catch; apply steps_refl]|exact Ch4'|exact Le4|].
-        pose proof (IHh sc cur base Hcur ce hp n1 s1 ch nv' sn' Hh Hath rho (errval e0) st fk vs4 n4 n0 o ko g4 K P) as HB. cbv zeta in HB.
+        pose proof (IHh sc cur base Hfr ce hp n1 s1 ch nv' sn' Hh Hath rho (errval e0) st fk vs4 n4 n0 o ko g4 K P) as HB. cbv zeta in HB.
         refine (G_sub nt code (ctx_of sc (hp + length ch) st fk (base + n1) (base + nv') o ko K ce n0 (ctr g4)) c _ _
                   eq_refl eq_refl eq_refl eq_refl _ _ _ (le_n _) (le_n _) _ _ _ _ (HB _ _ _ _ _ _ _ _ _)); auto; try lia.
         * simpl; intros; lia.
@@ -1038,7 +1039,7 @@ Proof.
                   |eapply chg_update; [exact U|simpl; lia]|cl|].
     replace (S (S (S pc))) with (pc + 3) by lia.
     destruct HJ1 as (E1 & Hn1 & Hl1 & HP1).
-    pose proof (impl_inner q IHq sc cur base Hcur ce (pc + 3) (S nv) sn cq' n1 s1 Eq Hatq rho v st (fx :: fk) vs1 n n0 o g
+    pose proof (impl_inner q IHq sc cur base Hfr ce (pc + 3) (S nv) sn cq' n1 s1 Eq Hatq rho v st (fx :: fk) vs1 n n0 o g
                   ltac:(eapply envOK_lim; eauto; lia) Hn ltac:(lia) Hl1) as HA. cbv zeta in HA. fold pa in HA.
     set (fb := fun (l : list jv) (w : jv) => (@nil jv, @None exn, l ++ [w])).
     set (Jg := fun (l : list jv) (a : list sv) => nth_error a (base + nv) = Some (SV (VArr l))).
@@ -1118,7 +1119,7 @@ Proof.
                 |eapply chg_update; [exact U|simpl; lia]|cl|].
   replace (S (S (S pc))) with (pc + 3) by lia.
   pose proof HJ1 as (E1 & Hn1 & Hl1 & HP1).
-  pose proof (impl_inner qa IHa sc cur base Hcur ce (pc + 3) (S nv) sn ca n1 s1 Ec Hata rho v st (fx :: fk) vs1 n n0 o g
+  pose proof (impl_inner qa IHa sc cur base Hfr ce (pc + 3) (S nv) sn ca n1 s1 Ec Hata rho v st (fx :: fk) vs1 n n0 o g
                 ltac:(eapply envOK_lim; eauto; lia) Hn ltac:(lia) Hl1) as HA. cbv zeta in HA. fold p1 in HA.
   set (fb := fun (b : bool) (w : jv) => if truthy w then ([w], @None exn, true) else ([], None, b)).
   set (Jg := fun (b : bool) (a : list sv) => nth_error a (base + nv) = Some (SV (VBool b))).
@@ -1179,7 +1180,7 @@ Proof.
         destruct ts as [|t0 ts'].
         * eapply G_pre; [exact (StL false Hg4)|exact Ch4|exact Le4|].
           replace (S (S (S (S (S (S (S (S (S (S (S p1))))))))))) with (p1 + 11) in Hatb by lia.
-          pose proof (IHb sc cur base Hcur ce (p1 + 11) n1 s1 cb n2 s2 Ec0 Hatb rho v st fk vs4 n4 n0 o ko g4 K P) as HB. cbv zeta in HB.
+          pose proof (IHb sc cur base Hfr ce (p1 + 11) n1 s1 cb n2 s2 Ec0 Hatb rho v st fk vs4 n4 n0 o ko g4 K P) as HB. cbv zeta in HB.
           refine (G_sub nt code (ctx_of sc pend st fk (base + n1) (base + n2) o ko K ce n0 (ctr g4)) c _ _
                     eq_refl eq_refl eq_refl eq_refl _ _ _ (le_n _) (le_n _) _ _ _ _ (HB _ _ _ _ _ _ _ _ _)); auto; try lia.
           -- simpl; intros; lia.
@@ -1263,7 +1264,7 @@ Proof.
 Qed.
 
 (* the update of reduce/foreach: store $x, load the accumulator, run the update as a generator *)
-Lemma upd_inner : forall qu, Impl qu -> forall sc cur base, (forall k, index_of sc (cur, k) = Some (base + k)) ->
+Lemma upd_inner : forall qu, Impl qu -> forall sc cur base, frameOK sc cur base ->
   forall ce x n2 p2 sn cu n3 sn',
   comp qu (add_var ce x (cur, n2)) cur (S (S p2)) (S n2) sn = Some (cu, n3, sn') -> code_at (S (S p2)) cu ->
   forall accs, at_ p2 (Istore (cur, n2)) -> at_ (S p2) (Iload (cur, accs)) ->
@@ -1277,7 +1278,7 @@ Lemma upd_inner : forall qu, Impl qu -> forall sc cur base, (forall k, index_of 
   G c1 (fst (den qu ((x, w) :: rho) a)) (Tend c1 (snd (den qu ((x, w) :: rho) a)) (fun _ _ _ => True))
                (N sc (S (S p2)) (SV a :: st) fk vs1 n o g).
 Proof.
-  intros qu IHu sc cur base Hcur ce x n2 p2 sn cu n3 sn' Eu Hatu accs A0 A1 rho w a st fk vs n n0 o g lim Hacc Hlim HE Hn Ho Hl Ha.
+  intros qu IHu sc cur base Hfr ce x n2 p2 sn cu n3 sn' Eu Hatu accs A0 A1 rho w a st fk vs n n0 o g lim Hacc Hlim HE Hn Ho Hl Ha. pose proof (proj1 Hfr) as Hcur.
   destruct (comp_mono _ _ _ _ _ _ _ _ _ Eu) as [M _].
   destruct (update_some vs (base + n2) (SV w)) as [vs1 U]; [lia|]. exists vs1. split; [exact U|].
   destruct (update_spec _ _ _ _ U) as (UL & UN & UO).
@@ -1289,12 +1290,12 @@ Proof.
     pose proof (kept_lt _ _ _ _ _ _ _ HE Hk). lia. }
   split; [one st_store; one st_load; apply steps_refl|]. split; [exact HE1|]. split; [exact Ha1|].
   intros c1.
-  apply (impl_inner qu IHu sc cur base Hcur (add_var ce x (cur, n2)) (S (S p2)) (S n2) sn cu n3 sn' Eu Hatu ((x, w) :: rho) a st fk vs1 n n0 o g); auto; try lia.
+  apply (impl_inner qu IHu sc cur base Hfr (add_var ce x (cur, n2)) (S (S p2)) (S n2) sn cu n3 sn' Eu Hatu ((x, w) :: rho) a st fk vs1 n n0 o g); auto; try lia.
 Qed.
 
 (* the update phase of reduce/foreach for one source output w: store $x; load acc; update; then, for every
    output u of the update, a body that maintains the accumulator (ghost) in slot nv of the current frame *)
-Lemma upd_level : forall qu, Impl qu -> forall sc cur base, (forall k, index_of sc (cur, k) = Some (base + k)) ->
+Lemma upd_level : forall qu, Impl qu -> forall sc cur base, frameOK sc cur base ->
   forall ce x n2 p2 sn cu n3 sn',
   comp qu (add_var ce x (cur, n2)) cur (S (S p2)) (S n2) sn = Some (cu, n3, sn') -> code_at (S (S p2)) cu ->
   forall nv, at_ p2 (Istore (cur, n2)) -> at_ (S p2) (Iload (cur, nv)) ->
@@ -1324,10 +1325,10 @@ Lemma upd_level : forall qu, Impl qu -> forall sc cur base, (forall k, index_of 
                 (fun a' m z => Jstd sc ce rho n0 lo o P a' m z /\ nth_error a' lo = Some (SV g')))
     (N sc p2 (SV w :: st) fk vs n oe y).
 Proof.
-  intros qu IHu sc cur base Hcur ce x n2 p2 sn cu n3 sn' Eu Hatu nv A0 A1 rho w st fk K n0 hi o ko P pcx fbC ownbC0 oe y
-         ce3 rho3 lo P3 cC cOut JC Hnv Hhi Hko Hoo Hoe HK1 HK2 Hkl S1' S2' HobC HbodyC a vs n Hj Ha Hlen os xx g' Ef.
+  intros qu IHu sc cur base Hfr ce x n2 p2 sn cu n3 sn' Eu Hatu nv A0 A1 rho w st fk K n0 hi o ko P pcx fbC ownbC0 oe y
+         ce3 rho3 lo P3 cC cOut JC Hnv Hhi Hko Hoo Hoe HK1 HK2 Hkl S1' S2' HobC HbodyC a vs n Hj Ha Hlen os xx g' Ef. pose proof (proj1 Hfr) as Hcur.
   destruct (comp_mono _ _ _ _ _ _ _ _ _ Eu) as [M _]. pose proof Hj as (E & Hn & Hl & Hp).
-  destruct (upd_inner qu IHu sc cur base Hcur ce x n2 p2 sn cu n3 sn' Eu Hatu nv A0 A1 rho w a st fk vs n n0 oe y lo Hnv ltac:(unfold lo; lia)
+  destruct (upd_inner qu IHu sc cur base Hfr ce x n2 p2 sn cu n3 sn' Eu Hatu nv A0 A1 rho w a st fk vs n n0 oe y lo Hnv ltac:(unfold lo; lia)
               E Hn ltac:(lia) Hlen Ha) as (vs1 & U & St1 & HE1 & Ha1 & HU). cbv zeta in HU.
   destruct (update_spec _ _ _ _ U) as (UL & UN & UO).
   assert (HP3 : P3 vs1 n y) by (unfold P3; eapply (Jstd_update _ _ _ _ _ _ lo hi); [exact S1'|exact Hj|exact U|unfold lo; lia|unfold lo; lia]).
@@ -1395,7 +1396,7 @@ Proof.
   cbn [Den.den].
   set (updf := fun w acc => den qu ((x, w) :: rho) acc).
   match goal with |- G _ (fst (bind _ ?f)) _ _ => set (f0 := f) end.
-  pose proof (impl_inner qi IHi sc cur base Hcur ce (S pc) (S nv) sn ci n1 s1 Ec Hati rho v (SV v :: st) fk vs n n0 o g
+  pose proof (impl_inner qi IHi sc cur base Hfr ce (S pc) (S nv) sn ci n1 s1 Ec Hati rho v (SV v :: st) fk vs n n0 o g
                 ltac:(eapply envOK_lim; eauto; lia) Hn ltac:(unfold hi in *; lia) Hlen) as HA. cbv zeta in HA. fold q1 in HA.
   eapply G_pre; [one st_dup; apply steps_refl|apply chg_refl|cl|].
   eapply G_impl; [|refine (bind_std f0 (fun _ => True) sc q1 (SV v :: st) (base + S nv) (base + n1) pend st fk lo hi o ko K ce n0 (ctr g) rho lo P
@@ -1414,7 +1415,7 @@ Proof.
   set (fx := F sc (S q1) (SV v :: st) o' (ctr z)).
   eapply G_pre; [one st_store; one st_fork; apply steps_refl|eapply chg_update; [exact U|simpl; auto]|cl|].
   pose proof HJ1 as (E1 & Hn1 & Hl1 & Hp1).
-  pose proof (impl_inner qs IHs sc cur base Hcur ce (S (S q1)) n1 s1 cs n2 s2 Ec0 Hats rho v st (fx :: F0) vs1 n' n0 o' z
+  pose proof (impl_inner qs IHs sc cur base Hfr ce (S (S q1)) n1 s1 cs n2 s2 Ec0 Hats rho v st (fx :: F0) vs1 n' n0 o' z
                 ltac:(eapply envOK_lim; eauto; unfold lo; lia) Hn1 ltac:(unfold hi in *; lia) ltac:(lia)) as HB. cbv zeta in HB. fold q2 in HB.
   set (fbB := fun a w => (@nil jv, snd (updf w a), last_or (fst (updf w a)) a)).
   set (ownbB0 := fun i => i = lo \/ base + n2 <= i < hi).
@@ -1443,7 +1444,7 @@ Proof.
     - (* one source output w, accumulator a *)
       intros w a fk2 vs2 m2 o2 z2 os2 x2 g2 [Hj2 Hg2] Ho2 Ht2 Hfk2 Efb. unfold fbB in Efb. inversion Efb; subst os2 x2 g2. clear Efb.
       pose proof (foldgen_last (fst (updf w a)) a) as EfC.
-      pose proof (upd_level qu IHu sc cur base Hcur ce x n2 q2 s2 cu n3 s3 Ec1 Hatu nv A3 A4 rho w st (fk2 ++ fx :: F0) K n0 hi o ko P 0
+      pose proof (upd_level qu IHu sc cur base Hfr ce x n2 q2 s2 cu n3 s3 Ec1 Hatu nv A3 A4 rho w st (fk2 ++ fx :: F0) K n0 hi o ko P 0
                 (fun (_ : jv) u => ([], None, u)) (fun i => i = lo) o2 z2) as HU. cbv zeta in HU. fold lo in HU.
       refine (HU ltac:(lia) (le_n _) Hko Hoo ltac:(simpl in Ho2; lia) HK1 HK2 Hkl S1' S2' _ _ a vs2 m2 Hj2 Hg2 ltac:(simpl in Ho2; lia) [] None _ EfC).
       + intros i ->. auto.
@@ -1560,7 +1561,7 @@ Proof.
   set (updf := fun w acc => den qu ((x, w) :: rho) acc).
   set (extf := fun w u => match ext with Some e => den e ((x, w) :: rho) u | None => ([u], None) end).
   match goal with |- G _ (fst (bind _ ?f)) _ _ => set (f0 := f) end.
-  pose proof (impl_inner qi IHi sc cur base Hcur ce (S pc) (S nv) sn ci n1 s1 Ec Hati rho v (SV v :: st) fk vs n n0 o g
+  pose proof (impl_inner qi IHi sc cur base Hfr ce (S pc) (S nv) sn ci n1 s1 Ec Hati rho v (SV v :: st) fk vs n n0 o g
                 ltac:(eapply envOK_lim; eauto; lia) Hn ltac:(unfold hi in *; lia) Hlen) as HA. cbv zeta in HA. fold q1 in HA.
   eapply G_pre; [one st_dup; apply steps_refl|apply chg_refl|cl|].
   eapply G_impl; [|refine (bind_std f0 (fun _ => True) sc q1 (SV v :: st) (base + S nv) (base + n1) pend st fk lo hi o ko K ce n0 (ctr g) rho lo P
@@ -1577,7 +1578,7 @@ Proof.
   set (F0 := fk' ++ fk) in *.
   eapply G_pre; [one st_store; apply steps_refl|eapply chg_update; [exact U|simpl; auto]|cl|].
   pose proof HJ1 as (E1 & Hn1 & Hl1 & Hp1).
-  pose proof (impl_inner qs IHs sc cur base Hcur ce (S q1) n1 s1 cs n2 s2 Ec0 Hats rho v st F0 vs1 n' n0 o' z
+  pose proof (impl_inner qs IHs sc cur base Hfr ce (S q1) n1 s1 cs n2 s2 Ec0 Hats rho v st F0 vs1 n' n0 o' z
                 ltac:(eapply envOK_lim; eauto; unfold lo; lia) Hn1 ltac:(unfold hi in *; lia) ltac:(lia)) as HB. cbv zeta in HB. fold q2 in HB.
   set (cB := cbody c (fun i => i = lo \/ base + n1 <= i < hi) ce fk' o' (ctr z)).
   set (JgB := fun (a : jv) (a' : list sv) => nth_error a' lo = Some (SV a)).
@@ -1605,7 +1606,7 @@ Proof.
       intros w a fk2 vs2 m2 o2 z2 os2 x2 g2 [Hj2 Hg2] Ho2 Ht2 Hfk2 Efb. unfold foreach_step in Efb. simpl in Ho2.
       pose proof (foreach_upd_foldgen (extf w) (fst (updf w a)) a) as EfC.
       inversion Efb; subst os2 x2 g2. clear Efb.
-      pose proof (upd_level qu IHu sc cur base Hcur ce x n2 q2 s2 cu n3 s3 Ec1 Hatu nv A3 A4 rho w st (fk2 ++ F0) K n0 hi o ko P pend
+      pose proof (upd_level qu IHu sc cur base Hfr ce x n2 q2 s2 cu n3 s3 Ec1 Hatu nv A3 A4 rho w st (fk2 ++ F0) K n0 hi o ko P pend
                 (fun (_ : jv) u => (fst (extf w u), snd (extf w u), u)) (fun i => i = lo \/ base + n3 <= i < hi) o2 z2) as HU.
       cbv zeta in HU. fold lo in HU.
       refine (HU ltac:(lia) ltac:(unfold hi; lia) Hko Hoo ltac:(simpl in Ho2; lia) HK1 HK2 Hkl S1' S2' _ _ a vs2 m2 Hj2 Hg2 ltac:(simpl in Ho2; lia) _ _ _ EfC).
@@ -1635,7 +1636,7 @@ Proof.
                                g_own := fun i => i = lo \/ base + S n2 <= i < hi \/ o2 <= i;
                                g_keep := K; g_ce := ce3; g_n0 := n0; g_off := o2; g_koff := ko; g_ctr := ctr z2 |}
                             (fun i => i = lo \/ base + n3 <= i < hi) ce3 fk3 o3 (ctr z3)).
-          apply (impl_body e IHx sc cur base Hcur ce3 (S (S q3)) n3 s3 cx nv' sn' Hx Hatx cbx
+          apply (impl_body e IHx sc cur base Hfr ce3 (S (S q3)) n3 s3 cx nv' sn' Hx Hatx cbx
                    ((x, w) :: rho) u vs4 m3 o3 z3 JC); subst cbx; simpl.
           -- reflexivity.
           -- reflexivity.
